@@ -236,7 +236,7 @@ func drive(c caseT, wire []byte) outcome {
 	if rl == 0 {
 		rl = len(wire) + 1
 	}
-	cfg := nbdrive.Config{Client: c.Client, Compression: c.Kind == "compressed", MsgLimit: c.L, ReadLimit: rl, Allocator: tr}
+	cfg := nbdrive.Config{Client: c.Client, Compression: c.Kind == "compressed" || c.Kind == "compressed-unfinished", MsgLimit: c.L, ReadLimit: rl, Allocator: tr}
 	cfg.AfterMessage = tr.handOver
 	e := nbdrive.New(cfg)
 	cuts := c.Seg.Cuts(len(wire))
@@ -478,6 +478,38 @@ func runCompressed(c caseT) {
 	}
 }
 
+// runCompressedUnfinished: a compressed message that never ends. Its fragments
+// are each within the limit, their sum is 3-10 times the limit: nothing above
+// the limit may be buffered while waiting for a FIN that never comes - the
+// connection must be failed (1009) as soon as the assembled length passes the
+// limit.
+func runCompressedUnfinished(c caseT) {
+	rng := rand.New(rand.NewSource(c.FragSeed))
+	masked := !c.Client
+	raw := make([]byte, c.Size)
+	rng.Read(raw) // incompressible: the deflate output is about as long
+	cp := wsref.Deflate(raw, 1)
+	step := c.L * 3 / 4
+	if step < 1 {
+		step = 1
+	}
+	var cuts []int
+	for p := step; p < len(cp); p += step {
+		cuts = append(cuts, p)
+	}
+	frames := wsref.Fragment(wsref.Message{Type: byte(c.Type), Payload: cp}, wsref.FragmentOpts{Cuts: cuts, Masked: masked, NextKey: keyGen(rng)})
+	frames[0].Rsv1 = true
+	frames[len(frames)-1].Fin = false // the message is never finished
+	o := drive(c, wsref.Encode(frames))
+	how := "compressed-unfinished"
+	ok := o.expectRefused(c, how, len(cp))
+	ok = o.common(c, how) && ok
+	run.Seen("cells", fmt.Sprintf("%s/L=%d/%s/frags=%d", how, c.L, c.Pool, len(frames)))
+	if ok {
+		run.Nontrivial(fmt.Sprintf("compressed-unfinished/%d", c.Index))
+	}
+}
+
 func runControlSend(c caseT) {
 	tr := newTracker(pool(c.Pool))
 	e := nbdrive.New(nbdrive.Config{Client: c.Client, MsgLimit: c.L, Allocator: tr})
@@ -644,6 +676,8 @@ func runCase(c caseT) {
 	switch c.Kind {
 	case "plain":
 		runPlain(c)
+	case "compressed-unfinished":
+		runCompressedUnfinished(c)
 	case "compressed":
 		runCompressed(c)
 	case "control-send":
@@ -755,6 +789,17 @@ func main() {
 							step(c2, false)
 						}
 					}
+				}
+				// ---- a compressed message that never ends: fragments within the limit, 3-10 x the limit in sum
+				if L >= 16 {
+					rng := run.Rand("c15-unfinished", idx+1)
+					size := (3 + rng.Intn(8)) * L
+					if size > absCap {
+						size = absCap
+					}
+					c := caseT{Kind: "compressed-unfinished", L: L, Pool: pl, Client: rng.Intn(2) == 0, Type: 1 + rng.Intn(2), Size: size, FragSeed: rng.Int63()}
+					c.Seg = segFor(rng, size)
+					step(c, false)
 				}
 				// ---- the bomb: 1000*L, capped
 				if round < run.N(1, 3) {
